@@ -67,7 +67,7 @@ def run(ctx, F, cg):
                             if ds and ds[0][0] == "stmt" and ds[0][4][0] == "discr":
                                 src = ds[0][4][1]
                                 og = b.origins(src[0], through_calls=lambda cc: [0] if cc.path.endswith("Try>::branch") else None)
-                                if "Option" in b.local_ty(src[0]) and any(o[0] == "call" and o[1].bb == c.bb for o in og) or any(o[0] == "via" and o[1].bb == c.bb for o in og):
+                                if b.local_ty(src[0]).startswith("std::option::Option<") and not src[1] and any(o[0] == "call" and o[1].bb == c.bb for o in og):
                                     for val, tgt in t[2]:
                                         if val == "0":
                                             through.add(tgt)
@@ -82,6 +82,40 @@ def run(ctx, F, cg):
                 else:
                     ctx.ok("R16b", inst, "every path append -> Ok passes %s" % ("/".join(sorted({c.path.rsplit('::', 1)[-1] for c in sw})) or "a storage write"))
     ctx.floor("R16b", "data-bearing WalEntry variants appended by PersistenceManager", len(variants_seen), 6)
+    # ---- R16d: an update is a read-modify-write that merges ---------------------------------------------------
+    ctx.rule("R16d", "a property update writes back the entity it read from storage, and changes its property map only by merging (insert/extend): a wholesale assignment of the map from the argument drops the properties the update did not mention")
+    nupd = 0
+    for p, r in sorted(fns.items()):
+        short = p.replace(PM, "")
+        if "update" not in short:
+            continue
+        b = Body(F.mir(p), r)
+        puts = [c for c in b.calls() if c.path.rsplit("::", 1)[-1] in ("put_node", "put_edge") and "PersistentStorage" in c.path]
+        gets = [c for c in b.calls() if c.path.rsplit("::", 1)[-1] in STORAGE_READS and "PersistentStorage" in c.path]
+        if not puts:
+            continue
+        nupd += 1
+        okd = True
+        for pc in puts:
+            ent = pc.args[-1]
+            og = b.origins(ent[1][0], through_calls=lambda cc: [0] if cc.path.endswith("Try>::branch") else None) if ent[0] != "k" else []
+            if not any(o[0] == "call" and o[1] in gets for o in og):
+                okd = False
+                ctx.violation("R16d", short + "|not-read-modify-write", where(r, pc.line), "the entity written back does not come from a storage read of that entity: labels/endpoints/other properties are not preserved")
+        for i, j, pl, rv, line, exp in b.stmts():
+            fl = [x for x in pl[1] if x.startswith("f:") and (x.endswith("node::Node.properties") or x.endswith("edge::Edge.properties"))]
+            if fl and pl[1][-1] == fl[-1]:
+                # direct assignment to the whole map: the new value must derive from the old map
+                srcs = []
+                if rv[0] == "use" and rv[1][0] != "k":
+                    srcs = b.origins(rv[1][1][0])
+                keeps_old = any(o[0] == "call" and o[1].args and o[1].args[0][0] != "k" and any(f.endswith(".properties") and ("node::Node" in f or "edge::Edge" in f) for f in od.chain_fields(b, o[1].args[0])) for o in srcs)
+                if not keeps_old:
+                    okd = False
+                    ctx.violation("R16d", short + "|properties-replaced", where(r, line), "the stored entity's property map is replaced wholesale: properties not named by this update are lost on recovery")
+        if okd:
+            ctx.ok("R16d", short, "writes back the entity it read; properties merged (no wholesale assignment)")
+    ctx.floor("R16d", "update functions with a storage write", nupd, 2)
     # ---- R16c -----------------------------------------------------------------------------------------
     b = Body(F.mir(rec["path"]), rec)
     ctx.saw_fn(rec["path"])
